@@ -293,6 +293,18 @@ def check(prop, tier, seed, replay=None, only_suite=None, ncases=None):
     hits = forbidden_scan()
     if hits:
         tie_broken.append(("forbidden", "; ".join(hits[:10])))
+    # thorough tier: independent re-check of the compiled property file and everything it depends on
+    coqchk = None
+    if tier == "thorough" and pok and replay is None:
+        modname = "DH." + mod.PROPS_FILE[:-2].replace("/", ".")
+        rc, out = sh(f"timeout 1500 coqchk -silent -o -Q {COQ} DH {modname}", timeout=1530)
+        m = re.search(r"\* Axioms:(.*?)\n\s*\n\* Constants", out, flags=re.S)
+        axioms = " ".join(m.group(1).split()) if m else "?"
+        coqchk = {"rc": rc, "axioms": axioms}
+        if rc != 0:
+            tie_broken.append(("coqchk", out.strip()[-400:]))
+        elif axioms != "<none>" and not getattr(mod, "COQCHK_AXIOMS_OK", False):
+            tie_broken.append(("coqchk-axioms", axioms[:400]))
 
     # static, model-level extras (inventories etc.)
     static_findings = []
@@ -433,6 +445,7 @@ def check(prop, tier, seed, replay=None, only_suite=None, ncases=None):
                 "timing": timing,
                 "tie_broken": [list(t) for t in tie_broken][:10],
                 "known_findings_hit": known_hits,
+                "coqchk": coqchk,
             },
             "assumptions": meta.get("assumptions", []),
             "wall_s": round(wall, 2),
